@@ -303,15 +303,21 @@ static std::vector<uint32_t> g_current;   // tape being executed
 static char g_failout[512];
 inline void crash_handler(int sig) {
   if (g_ctx && g_ctx->verbose) { std::string l = g_ctx->log.str(); if (::write(2, l.data(), l.size()) < 0) {} }
+  // hook H2: the crash happened while the CONDITION of a library assertion was being evaluated - code that does not exist in the shipped
+  // build.  Exit code 39 makes the driver treat it like a fired assertion: a lead that must be confirmed in the rel flavour.
+  bool in_assert = false;
+#ifdef BUGSENG_PPL_VERIF
+  in_assert = Parma_Polyhedra_Library::Verif_In_Assert::count() != 0;
+#endif
   if (g_failout[0]) {
     int fd = ::open(g_failout, O_WRONLY | O_CREAT | O_TRUNC, 0644);
     if (fd >= 0) {
-      char buf[256]; int n = std::snprintf(buf, sizeof buf, "# vf-tape v1 property=%s target=%s crash signal=%d\n", vf_info.property, vf_info.target, sig); if (n > (int) sizeof buf - 1) n = (int) sizeof buf - 1; if (::write(fd, buf, n) < 0) {}
+      char buf[256]; int n = std::snprintf(buf, sizeof buf, "# vf-tape v1 property=%s target=%s crash signal=%d%s\n", vf_info.property, vf_info.target, sig, in_assert ? " (inside the evaluation of an assertion)" : ""); if (n > (int) sizeof buf - 1) n = (int) sizeof buf - 1; if (::write(fd, buf, n) < 0) {}
       for (size_t i = 0; i < g_current.size(); ++i) { n = std::snprintf(buf, sizeof buf, "%u\n", g_current[i]); if (::write(fd, buf, n) < 0) {} }
       ::close(fd);
     }
   }
-  ::_exit(40 + (sig & 15));
+  ::_exit(in_assert ? 39 : 40 + (sig & 15));
 }
 inline void install_crash_handlers() {
   for (int sg : { SIGSEGV, SIGABRT, SIGFPE, SIGBUS, SIGILL }) std::signal(sg, crash_handler);
@@ -444,7 +450,7 @@ namespace vf { inline int fuzz_one(const uint8_t* data, size_t size) {
 // Sanitizer flavours: a report must end in abort() (not _exit) so that crash_handler saves the tape of the running case and the driver
 // gets a replayable violation instead of an unexplained worker exit.  (Unused in the unsanitized flavours; defined once per binary.)
 #define VF_MAIN \
-  extern "C" __attribute__((used)) const char* __asan_default_options() { return "abort_on_error=1:detect_leaks=0:allocator_may_return_null=1"; } \
+  extern "C" __attribute__((used)) const char* __asan_default_options() { return "abort_on_error=1:detect_leaks=0:allocator_may_return_null=1:quarantine_size_mb=48:malloc_context_size=6"; } \
   extern "C" __attribute__((used)) const char* __ubsan_default_options() { return "abort_on_error=1:print_stacktrace=1"; } \
   int main(int argc, char** argv) { return vf::main_impl(argc, argv); }
 #endif
